@@ -9,6 +9,8 @@
 //! Every harness documents: F (functions encoded), I (symbolic inputs), B (bounds),
 //! A (assumptions) in its doc comment; /verif/check copies them into the evidence.
 #![allow(dead_code, unused_imports, clippy::all)]
+// needed to name the allocator parameter of std HashMap in a Kani stub signature (c11_symbolication.rs)
+#![cfg_attr(kani, feature(allocator_api))]
 
 pub mod common;
 
